@@ -12,7 +12,8 @@ from .common import OUT, Machinery, run_tlc, write_cfg, seed, NCPU
 
 BASE = dict(MaxFev=4, MaxIter=2, Npt=3, HasObj=True, NCon=1, HasCb=True, Consistent=True,
             AllFixed=False, TargetKey=0, FVals="<-FV2", CVals="<-CV2", SamplingBudgetStatus=5,
-            CountInObjective=False, CallbackFirst=False, EscapeAtResult=False)
+            CountInObjective=False, CallbackFirst=False, EscapeAtResult=False,
+            Store=True, HSize=2, HistKeepsOldest=False)
 
 # deviation -> (constant overrides, clause prefix that must fail)
 DEVIATIONS = {
@@ -20,10 +21,11 @@ DEVIATIONS = {
     "evaluations counted in the objective only": (dict(CountInObjective=True, HasObj=False), "C05"),
     "callback before the filter update": (dict(CallbackFirst=True), "C20"),
     "CallbackSuccess escapes from result assembly": (dict(EscapeAtResult=True, Consistent=False), "C08"),
+    "history truncation keeps the oldest entries": (dict(HistKeepsOldest=True, HSize=2, Store=True), "C05"),
 }
 
 DEV_FOR = {"C07": ["sampling budget reported as iterations"],
-           "C05": ["evaluations counted in the objective only"],
+           "C05": ["evaluations counted in the objective only", "history truncation keeps the oldest entries"],
            "C09": ["evaluations counted in the objective only"],
            "C20": ["callback before the filter update"],
            "C08": ["CallbackSuccess escapes from result assembly"]}
@@ -37,6 +39,7 @@ def _configs(tier):
         for maxfev, npt, maxiter in ((1, 2, 1), (2, 3, 2), (3, 3, 2), (4, 3, 2), (5, 3, 3), (5, 2, 3)):
             cfgs.append(dict(BASE, HasObj=hasobj, NCon=ncon, HasCb=hascb, TargetKey=tgt, Consistent=cons,
                              AllFixed=fixed, MaxFev=maxfev, Npt=npt, MaxIter=maxiter,
+                             Store=(maxfev % 2 == 0), HSize=(0 if maxfev == 4 else 2),
                              FVals="<-FV3" if maxfev <= 3 else "<-FV2",
                              CVals="<-CV3" if maxfev <= 2 else "<-CV2"))
     if tier == "thorough":
